@@ -4,6 +4,7 @@ package main
 // tagged (by the harness, via zzverif.Guard) with the mutex object; every access
 // checks that the executing thread holds it.
 func (m *Machine) monitorMapAccess(mp *MapV, write bool) {
+	m.ps.asserts["lock-discipline:"+mp.owner]++
 	g := mp.guard
 	p := &Ptr{obj: g, path: mp.guardPath}
 	if m.holdsLock(m.cur, p, write) {
